@@ -116,7 +116,10 @@ def cfg_text(spec="Spec", constants=None, invariants=(), properties=(), view=Non
     if constants:
         out.append("CONSTANTS")
         for k, v in constants.items():
-            out.append("  %s = %s" % (k, tla_val(v)))
+            if isinstance(v, str) and v.startswith("<-"):
+                out.append("  %s <- %s" % (k, v[2:]))
+            else:
+                out.append("  %s = %s" % (k, tla_val(v)))
     if view:
         out.append("VIEW %s" % view)
     if constraint:
